@@ -680,7 +680,7 @@ def run(ctx):
     maxlen = 2 if skip_design else 3
     skipped_len4 = None
     if mc.ok and not ctx.quick and not skip_design:
-        est = 49.0 * mc.wall                  # ~48 times the states, same number of workers
+        est = 8.0 * mc.wall                   # measured: 44x the states costs ~5.5x the wall time of MaxLen=3
         if est <= 1500:
             mc4 = run_mc("DesktopSanitize_mc_thorough.cfg", 16, 2400, heap="16g")
             mcs.append(mc4)
